@@ -512,6 +512,17 @@ impl World {
                 }
                 return None;
             }
+            Op::Bulk { c, n } => {
+                out.bump("probe.long_history");
+                for i in 0..*n {
+                    let op = Op::AddVersion { c: *c, parent: IdArg::Latest, pay: Pay { class: 2, len: 9, tag: 7_000_000 + i as u32 }, ch: Chunking::Whole };
+                    self.step(&op, out);
+                    if crate::report::should_stop(out) {
+                        break;
+                    }
+                }
+                return None;
+            }
             Op::PresetProbe { k } => {
                 if self.entry != Entry::Lib {
                     return None;
@@ -1290,6 +1301,14 @@ pub fn gen_plan(seed: u64, backend: Backend, entry: Entry, focus: Focus, thoroug
         allow_empty_payload: entry == Entry::Lib,
     };
     let mut ops = gen_ops(&mut r, &p, n_clients, &cfg, page);
+    // swarm knob (rare; in-memory, library entry, where a request costs microseconds): one client's
+    // history grows by more than a thousand versions somewhere in the run
+    if backend == Backend::Memory && entry == Entry::Lib && r.chance(1, 120) {
+        let c = r.below(n_clients as u64) as u8;
+        let at = r.below(ops.len() as u64 + 1) as usize;
+        ops.insert(at, Op::Bulk { c, n: 1001 + r.below(80) as u16 });
+        ops.insert(at, Op::Create { c });
+    }
     // swarm knob: in some runs clients deliberately quote each other's ids
     if n_clients >= 2 && r.chance(30, 100) {
         let share = r.range(10, 40) as u64;
